@@ -39,3 +39,16 @@ PROPS["C01"] = dict(
     explanation="A green run means: for the listed shapes, every digit content satisfies the exact-sum/difference assertion, "
                 "a<b panics, checked_sub is None exactly then. Nothing is implied for longer operands beyond the inductive asm step.",
 )
+
+PROPS["C03"] = dict(
+    inject=[
+        ("src/bigint.rs", "c03/bigint.rs"),
+    ],
+    kani=[dict(filter_q="c03_q_", filter_t=["c03_q_", "c03_t_"], jobs=14, timeout_q=200, timeout_t=900)],
+    engines=[],
+    functions=["BigInt::{div_rem,/,%,div_floor,mod_floor,div_mod_floor,div_ceil,div_euclid,rem_euclid,div_rem_euclid,checked_*}"],
+    bounds_quick="sign conventions: 10 APIs x 4 sign pairs x shapes (|a|,|b|,|q|,|r|) in {(1,1,1,1),(1,1,1,0),(1,1,0,1),(2,1,2,1)} digits + zero dividend; zero-divisor set on 0..2-digit dividends",
+    bounds_thorough="18 API forms x 4 sign pairs x 12 shapes up to 2x2 digits",
+    outside="value correctness of the Knuth-D core (div_rem_core) - replaced by its contract; operands > 2 digits",
+    trusted=STUBS_ADDSUB + ["contract stub: biguint::division::div_rem_ref -> arbitrary canonical (q,r), r<d, |a| = P + r with abstract product P (P=0 iff q=0)"],
+)
